@@ -185,7 +185,7 @@ def c20(run):
     run.build(race=True)
     # ---- static: lock-discipline model extracted from the current source
     ext = os.path.join(run.dir, "extract")
-    p = subprocess.run(["go", "build", "-o", ext, "./extract"], cwd=pipeline.HARNESS, env=pipeline.GOENV, capture_output=True, text=True)
+    p = subprocess.run(["go", "build", "-o", ext, "./extract"], cwd=pipeline.HARNESS, env=pipeline.GOENV, capture_output=True, text=True)  # stdlib only
     if p.returncode != 0:
         raise pipeline.Infra("extractor does not build: " + p.stderr)
     model = os.path.join(run.dir, "bloomconc.json")
